@@ -7,6 +7,7 @@ import Driver.C17
 import Driver.C06
 import Driver.Relay
 import Driver.C16
+import Driver.C13
 
 def main (args : List String) : IO UInt32 := do
   match args with
@@ -19,4 +20,5 @@ def main (args : List String) : IO UInt32 := do
   | ["c06"] => Redproxy.Driver.C06.main; return 0
   | ["relay"] => Redproxy.Driver.Relay.main; return 0
   | ["c16"] => Redproxy.Driver.C16.main; return 0
+  | ["c13"] => Redproxy.Driver.C13.main; return 0
   | _ => IO.eprintln "usage: rpmodel <mode>  (cases on stdin, one output line per case on stdout)"; return 2
